@@ -125,8 +125,14 @@ func inspectString(s string) string {
 	return fmt.Sprintf("%q", s)
 }
 
-// Inspect renders a value the way object.Inspect does.
-func Inspect(v Value) string {
+// Inspect renders a value the way object.Inspect does. Cyclic or very deep values render with a
+// NUL marker, which makes the outcome undecided (the real rendering of cycles is not pinned).
+func Inspect(v Value) string { return inspectD(v, 0) }
+
+func inspectD(v Value, depth int) string {
+	if depth > 40 {
+		return "\x00deep"
+	}
 	switch x := v.(type) {
 	case int64:
 		return strconv.FormatInt(x, 10)
@@ -144,7 +150,7 @@ func Inspect(v Value) string {
 	case *List:
 		parts := make([]string, len(x.Items))
 		for i, e := range x.Items {
-			parts[i] = Inspect(e)
+			parts[i] = inspectD(e, depth+1)
 		}
 		return "[" + strings.Join(parts, ", ") + "]"
 	case *Map:
@@ -155,7 +161,7 @@ func Inspect(v Value) string {
 		sort.Strings(keys)
 		parts := make([]string, len(keys))
 		for i, k := range keys {
-			parts[i] = fmt.Sprintf("%q: %s", k, Inspect(x.M[k]))
+			parts[i] = fmt.Sprintf("%q: %s", k, inspectD(x.M[k], depth+1))
 		}
 		return "{" + strings.Join(parts, ", ") + "}"
 	case *Set:
@@ -252,7 +258,12 @@ func (s *Set) Sorted() []Value {
 }
 
 // Equals implements ==.
-func Equals(a, b Value) bool {
+func Equals(a, b Value) bool { return equalsD(a, b, 0) }
+
+func equalsD(a, b Value, depth int) bool {
+	if depth > 100 {
+		panic(budgetExceeded{}) // cyclic or absurdly deep data: not decided by the model
+	}
 	switch x := a.(type) {
 	case int64:
 		switch y := b.(type) {
@@ -285,7 +296,7 @@ func Equals(a, b Value) bool {
 			return false
 		}
 		for i := range x.Items {
-			if !Equals(x.Items[i], y.Items[i]) {
+			if !equalsD(x.Items[i], y.Items[i], depth+1) {
 				return false
 			}
 		}
@@ -297,7 +308,7 @@ func Equals(a, b Value) bool {
 		}
 		for k, v := range x.M {
 			w, ok := y.M[k]
-			if !ok || !Equals(v, w) {
+			if !ok || !equalsD(v, w, depth+1) {
 				return false
 			}
 		}
@@ -309,7 +320,7 @@ func Equals(a, b Value) bool {
 		}
 		for k, v := range x.Items {
 			w, ok := y.Items[k]
-			if !ok || !Equals(v, w) {
+			if !ok || !equalsD(v, w, depth+1) {
 				return false
 			}
 		}
@@ -325,7 +336,12 @@ func Equals(a, b Value) bool {
 }
 
 // Compare implements the ordering used by < <= > >= and sorted(); error when not comparable.
-func Compare(a, b Value) (int, *RErr) {
+func Compare(a, b Value) (int, *RErr) { return compareD(a, b, 0) }
+
+func compareD(a, b Value, depth int) (int, *RErr) {
+	if depth > 100 {
+		panic(budgetExceeded{})
+	}
 	c3 := func(lt, gt bool) int {
 		if lt {
 			return -1
@@ -395,7 +411,7 @@ func Compare(a, b Value) (int, *RErr) {
 				case *Map, *Set, *Closure, *BuiltinV, *BoundMethod, *Partial:
 					return 0, typeErr("%s object is not comparable", TypeName(x.Items[i]))
 				}
-				c, err := Compare(x.Items[i], y.Items[i])
+				c, err := compareD(x.Items[i], y.Items[i], depth+1)
 				if err != nil {
 					return 0, err
 				}
